@@ -696,17 +696,17 @@ class KMIPProxy(object):
 
         if payload:
             result['unique_identifier'] = payload.unique_identifier
-        if payload.usage_limits_count is not None:
-            result['usage_limits_count'] = payload.usage_limits_count
-        if payload.cryptographic_usage_mask is not None:
-            # TODO (peter-hamilton) Push this into the Check response.
-            masks = []
-            for enumeration in enums.CryptographicUsageMask:
-                if payload.cryptographic_usage_mask & enumeration.value:
-                    masks.append(enumeration)
-            result['cryptographic_usage_mask'] = masks
-        if payload.lease_time is not None:
-            result['lease_time'] = payload.lease_time
+            if payload.usage_limits_count is not None:
+                result['usage_limits_count'] = payload.usage_limits_count
+            if payload.cryptographic_usage_mask is not None:
+                # TODO (peter-hamilton) Push this into the Check response.
+                masks = []
+                for enumeration in enums.CryptographicUsageMask:
+                    if payload.cryptographic_usage_mask & enumeration.value:
+                        masks.append(enumeration)
+                result['cryptographic_usage_mask'] = masks
+            if payload.lease_time is not None:
+                result['lease_time'] = payload.lease_time
 
         result['result_status'] = batch_item.result_status.value
         try:
@@ -1394,9 +1394,13 @@ class KMIPProxy(object):
     def _process_discover_versions_batch_item(self, batch_item):
         payload = batch_item.response_payload
 
+        protocol_versions = None
+        if payload:
+            protocol_versions = payload.protocol_versions
+
         result = DiscoverVersionsResult(
             batch_item.result_status, batch_item.result_reason,
-            batch_item.result_message, payload.protocol_versions)
+            batch_item.result_message, protocol_versions)
 
         return result
 
